@@ -218,4 +218,178 @@ theorem c11_lock_bound_combined (p : Params) (bal : List (Nat × Int)) (h t : Na
   have := hI a r har
   exact ⟨this.rel0, this.relWd, this.lock⟩
 
+-- ---------------------------------------------------------------------------------------------
+-- non-vacuity and sharpness on concrete histories
+
+/-- decidable form of `isUser` / `Op.wfU`, to discharge the hypotheses of the theorems above on concrete histories -/
+def cmb2_isUserb (x : Nat) : Bool := decide (x < SUB_BASE) && !isModuleAcc x
+
+theorem cmb2_isUserb_sound {x : Nat} (h : cmb2_isUserb x = true) : isUser x := by
+  unfold cmb2_isUserb at h
+  simp only [Bool.and_eq_true, decide_eq_true_eq, Bool.not_eq_true'] at h
+  exact h
+
+def cmb2_wfUb : Op → Bool
+  | .core (.marketAdd c _ _ _ _ _ _) => !isModuleAcc c
+  | .core (.deposit c _ _ _ pd) => cmb2_isUserb (depositFor c pd)
+  | .core (.withdraw c _ _ _ _ _ pd) => !isModuleAcc (if pd != 0 then pd else c)
+  | .core (.wager c _ _ _ _) => cmb2_isUserb c
+  | .core (.send a _ _) => decide (a < SUB_BASE)
+  | .core _ => true
+  | .create c o _ => cmb2_isUserb c && cmb2_isUserb o
+  | .topUp c _ _ => cmb2_isUserb c
+  | _ => true
+
+theorem cmb2_not_true {b : Bool} (h : (!b) = true) : b = false := by cases b <;> simp_all
+
+theorem cmb2_wfUb_sound {op : Op} (h : cmb2_wfUb op = true) : op.wfU := by
+  cases op with
+  | core cop =>
+    cases cop with
+    | marketAdd c tk u st en o stt => exact cmb2_not_true h
+    | deposit c tk m a pd => exact cmb2_isUserb_sound h
+    | withdraw c tk m i md a pd => exact cmb2_not_true h
+    | wager c tk u a pl => exact cmb2_isUserb_sound h
+    | send a b v =>
+      show a < SUB_BASE
+      exact of_decide_eq_true h
+    | marketUpdate _ _ _ _ _ => trivial
+    | marketResolve _ _ _ _ _ => trivial
+    | grant _ _ _ _ _ => trivial
+    | revoke _ _ _ => trivial
+    | setParams _ => trivial
+    | endBlock => trivial
+    | newBlock _ _ => trivial
+  | create c o ls =>
+    simp only [cmb2_wfUb, Bool.and_eq_true] at h
+    exact ⟨cmb2_isUserb_sound h.1, cmb2_isUserb_sound h.2⟩
+  | topUp c o ls => exact cmb2_isUserb_sound h
+  | subParams _ _ => trivial
+  | withdrawUnlocked _ => trivial
+  | subWager _ _ _ _ _ _ _ _ _ => trivial
+  | subDeposit _ _ _ _ _ => trivial
+  | subWithdraw _ _ _ _ _ _ _ => trivial
+
+theorem cmb2_wfUb_all {ops : List Op} (h : ops.all cmb2_wfUb = true) : ∀ op ∈ ops, op.wfU :=
+  fun op hop => cmb2_wfUb_sound (List.all_eq_true.mp h op hop)
+
+def exBal : List (Nat × Int) := [(7, 100000000), (2, 100000000), (3, 100000000), (9, 0)]
+def exInit : State := init {} exBal 1 100 true true
+def exPl (o : Nat) : WagerPayload :=
+  { market := 1, odds := o, oddsVal := some ⟨2 * PREC⟩, mult := ⟨PREC⟩, allOdds := [(11, ⟨PREC⟩), (12, ⟨PREC⟩)] }
+
+/-- market 1 by account 9; account 7 creates the subaccount of owner 2 with 60000000 locked until time 300; the
+    subaccount deposits 50000000 into the house of market 1 (fee 5000000, liquidity 45000000), withdraws 5000000 of it
+    again (partial withdrawal), and account 3 bets 2000000 on outcome 11 against it -/
+def exPre : List Op :=
+  [.core (.marketAdd 9 sampleTk 1 50 500 [11, 12] MS_ACTIVE),
+   .create 7 2 [(300, 60000000)],
+   .subDeposit 2 sampleTk 1 50000000 0,
+   .subWithdraw 2 sampleTk 1 1 WM_PARTIAL 5000000 0,
+   .core (.wager 3 sampleTk 77 2000000 (exPl 11))]
+
+/-- … outcome 12 is declared (the bettor loses, the house wins), the end-block settles, time passes the unlock time, the
+    owner withdraws the unlocked balance -/
+def exWin : List Op :=
+  exPre ++ [.core (.marketResolve sampleTk 1 60 MS_DECLARED [12]), .core .endBlock, .core (.newBlock 2 400), .withdrawUnlocked 2]
+/-- … outcome 11 is declared (the bettor wins, the house loses) … -/
+def exLoss : List Op :=
+  exPre ++ [.core (.marketResolve sampleTk 1 60 MS_DECLARED [11]), .core .endBlock, .core (.newBlock 2 400), .withdrawUnlocked 2]
+/-- … the market is cancelled … -/
+def exCancel : List Op :=
+  exPre ++ [.core (.marketResolve sampleTk 1 60 MS_CANCELED []), .core .endBlock, .core (.newBlock 2 400), .withdrawUnlocked 2]
+
+theorem exBal_range (x : Nat) (hx : SUB_BASE ≤ x) : getBal exBal x = 0 := by
+  unfold SUB_BASE at hx
+  simp only [exBal, getBal]
+  rw [if_neg (by omega), if_neg (by omega), if_neg (by omega), if_neg (by omega)]
+
+/-- the hypotheses of the four theorems are satisfiable: the three histories are `wfU`, `clean`, have non-decreasing
+    block times, and start from empty custody accounts and an empty subaccount range -/
+example :
+    (∀ ops ∈ [exWin, exLoss, exCancel], (∀ op ∈ ops, op.wfU) ∧ ops.all Op.clean = true ∧ cmb2_timesMono 100 ops = true) ∧
+    (getBal exBal ACC_POOL = 0 ∧ getBal exBal ACC_BETFEE = 0 ∧ getBal exBal ACC_HOUSEFEE = 0) ∧
+    (∀ x, SUB_BASE ≤ x → getBal exBal x = 0) := by
+  refine ⟨?_, by decide, exBal_range⟩
+  have h : ∀ ops ∈ [exWin, exLoss, exCancel], ops.all cmb2_wfUb = true ∧ ops.all Op.clean = true ∧ cmb2_timesMono 100 ops = true := by
+    decide +kernel
+  intro ops hops
+  exact ⟨cmb2_wfUb_all (h ops hops).1, (h ops hops).2⟩
+
+/-- the summary (deposited, spent, withdrawn, lost), the ghost counter and the bank balance of subaccount 1 -/
+def exView (s : State) : Option (Int × Int × Int × Int × Int) × Int :=
+  ((aget s.subs (subAddr 1)).map fun r => (r.sum.deposited, r.sum.spent, r.sum.withdrawn, r.sum.lost, r.released), s.bal (subAddr 1))
+
+/-- HOUSE WINS. Before the block: spent = 50000000 − 5000000 = liquidity 40000000 + fee 5000000. The end-block calls
+    AfterHouseWin(liquidity 40000000, profit 1999900): un-spend, forward the profit to the owner; the fee goes to the
+    market creator (account 9) and stays `Spent` for ever. After the unlock time the whole bank balance is released. -/
+example :
+    let s1 := run exInit (exPre ++ [.core (.marketResolve sampleTk 1 60 MS_DECLARED [12])])
+    let s2 := run s1 [.core .endBlock]
+    let s3 := run exInit exWin
+    exView s1 = (some (60000000, 45000000, 0, 0, 0), 15000000) ∧
+    (Core.step s1.core .endBlock).2 = .ok ∧ (step s1 (.core .endBlock)).2 = .ok ∧
+    endBlockHooks s1.core (Core.step s1.core .endBlock).1 = [.win (subAddr 1) 40000000 1999900] ∧
+    exView s2 = (some (60000000, 5000000, 0, 0, 0), 55000000) ∧ s2.bal 2 = 101999900 ∧ s2.bal 9 = 5000100 ∧
+    exView s3 = (some (60000000, 5000000, 55000000, 0, 55000000), 0) ∧ s3.bal 2 = 156999900 ∧ s3.core.time = 400 ∧
+    s3.core.total = totalBal exBal := by
+  dsimp only
+  refine ⟨?_, ?_, ?_, ?_, ?_, ?_, ?_, ?_, ?_, ?_, ?_⟩ <;> decide +kernel
+
+/-- HOUSE LOSES. AfterHouseLoss(liquidity 40000000, lost 1999900): un-spend the liquidity, book the loss. -/
+example :
+    let s1 := run exInit (exPre ++ [.core (.marketResolve sampleTk 1 60 MS_DECLARED [11])])
+    let s2 := run s1 [.core .endBlock]
+    let s3 := run exInit exLoss
+    (step s1 (.core .endBlock)).2 = .ok ∧
+    endBlockHooks s1.core (Core.step s1.core .endBlock).1 = [.loss (subAddr 1) 40000000 1999900] ∧
+    exView s2 = (some (60000000, 5000000, 0, 1999900, 0), 53000100) ∧
+    exView s3 = (some (60000000, 5000000, 53000100, 1999900, 53000100), 0) ∧ s3.bal 2 = 153000100 := by
+  dsimp only
+  refine ⟨?_, ?_, ?_, ?_, ?_⟩ <;> decide +kernel
+
+/-- CANCELLED MARKET. AfterHouseRefund(liquidity 40000000) and AfterHouseFeeRefund(fee 5000000): `Spent` returns to 0. -/
+example :
+    let s1 := run exInit (exPre ++ [.core (.marketResolve sampleTk 1 60 MS_CANCELED [])])
+    let s2 := run s1 [.core .endBlock]
+    let s3 := run exInit exCancel
+    (step s1 (.core .endBlock)).2 = .ok ∧
+    endBlockHooks s1.core (Core.step s1.core .endBlock).1 = [.refund (subAddr 1) 40000000, .refund (subAddr 1) 5000000] ∧
+    exView s2 = (some (60000000, 0, 0, 0, 0), 60000000) ∧
+    exView s3 = (some (60000000, 0, 60000000, 0, 60000000), 0) ∧ s3.bal 2 = 160000000 ∧ s3.bal 3 = 100000000 := by
+  dsimp only
+  refine ⟨?_, ?_, ?_, ?_, ?_, ?_⟩ <;> decide +kernel
+
+/-- before the unlock time nothing can be withdrawn: the message fails -/
+example : (step (run exInit exPre) (.withdrawUnlocked 2)).2 = .err := by decide +kernel
+
+/-- SHARPNESS of `c11_hooks_total_combined` (NOT a finding: it needs an authz grant SIGNED BY A SUBACCOUNT ADDRESS,
+    which has no key). If a direct house deposit could name a subaccount address as depositor — the history below
+    satisfies `Op.wf` (no custody account signs) but not `Op.wfU` — the participation would belong to the subaccount
+    address without `Spend`, and at settlement `AfterHouseRefund` would un-spend more than `Spent`: the core end-block
+    succeeds, the combined end-block HALTS. This is the reason for the key-holding hypothesis. -/
+theorem c11_hooks_total_needs_keyholders :
+    let ops : List Op :=
+      [.core (.marketAdd 9 sampleTk 1 50 500 [11, 12] MS_ACTIVE),
+       .create 7 2 [(300, 60000000)],
+       .core (.grant (subAddr 1) 3 0 50000000 none),
+       .core (.deposit 3 sampleTk 1 50000000 (subAddr 1)),
+       .core (.marketResolve sampleTk 1 60 MS_CANCELED [])]
+    let s := run exInit ops
+    (Core.step s.core .endBlock).2 = .ok ∧ (step s (.core .endBlock)).2 = .halt ∧
+    exView s = (some (60000000, 0, 0, 0, 0), 10000000) := by
+  dsimp only
+  decide +kernel
+
+/-- SHARPNESS of `c11_bank_eq_available_combined`: after a direct bank send to the subaccount address (the one operation
+    below that is not `clean`) the bank balance exceeds Deposited − Withdrawn − Spent − Lost; `c11_ledger_combined`
+    (bank ≥ available) still holds. -/
+theorem c11_bank_eq_available_needs_no_direct_send :
+    let ops : List Op := [.create 7 2 [(300, 60000000)], .core (.send 3 (subAddr 1) 5)]
+    let s := run exInit ops
+    ops.all cmb2_wfUb = true ∧ ops.map Op.clean = [true, false] ∧
+    exView s = (some (60000000, 0, 0, 0, 0), 60000005) := by
+  dsimp only
+  decide +kernel
+
 end Sge.Combined
